@@ -20,6 +20,9 @@ EXPLANATION = (
     "skip conditions (no ALT, multi-ALT without mav, duplicate position, non-SNV with only_snvs) dominate the per-sample section; R5 header -- removals are confined to the `phasing` record and to "
     "FORMAT definitions that are re-added on the same path, everything else only adds; R6 -- a GT store of a different genotype is reported and asserted to require --distrust-genotypes."
 )
+EXPLANATION += (
+    " " + 'R4 also: in PhasedVcfWriter.write every record taken from the record generator passes _remove_existing_phasing before any skip (`continue`) can hand it to the writer (no path through the record loop avoids the call).'
+)
 NOT_DECIDED = "That the solver's alleles equal the input genotype under trusted genotypes (value fact, guarded at run time by the assertion R6 pins); htslib's serialisation of untouched fields."
 ASSUMPTIONS = ["pysam records are written back as they are apart from what was assigned to them", "the input VCF lists each chromosome contiguously"]
 
@@ -292,6 +295,18 @@ def r4(ctx):
     for atom, why in ((("pos in components", True), "the position belongs to a component"), (("pos in phases", True), "the solver produced a phase for it"), (("is_het", True), "the call is heterozygous")):
         ok = atom in ga
         ctx.ob(w.qual, "setter-guard:%s" % atom[0], ok, w.loc(setters[0]), "the tag setter runs only if %s" % why if ok else "the tag setter is not dominated by `%s`" % atom[0])
+    # every record the generator hands out loses its old phasing first, also the ones skipped below
+    rloops = [n for n in walk_function(w.node) if isinstance(n, ast.For) and "self._record_modifier" in u(n.iter)]
+    ctx.require(len(rloops) == 1, "record loop over self._record_modifier(...) not found in write")
+    recv = u(rloops[0].target)
+    rms = [c for c in ctx.prog.calls_in(w.node) if u(c.func) == "self._remove_existing_phasing" and c.args and u(c.args[0]) == recv]
+    if len(rms) != 1:
+        ctx.ob(w.qual, "old-phasing-removed-from-every-record", False, w.loc(rloops[0]), "expected exactly one self._remove_existing_phasing(%s, ...) in the record loop, found %d" % (recv, len(rms)))
+    else:
+        ln, rn = cfg.node_of(rloops[0]), cfg.node_containing(rms[0])
+        bad = cfg.find_path(ln, ln, avoid_nodes={rn}, start_after=True)
+        inbody = rn in cfg.loop_body_nodes(ln)
+        ctx.ob(w.qual, "old-phasing-removed-from-every-record", bad is None and inbody, w.loc(rms[0]), "every record of a processed chromosome passes self._remove_existing_phasing before any skip (continue) can hand it to the writer" if bad is None and inbody else "a record can be written with its input phasing intact: a path through the record loop avoids _remove_existing_phasing", cfg.describe_path(bad) if bad else None)
     # is_het definitions
     defs = [(s, v) for s, v in util.assignments_to(w.node, "is_het") if isinstance(v, ast.AST)]
     texts = sorted(u(v) for s, v in defs)
